@@ -228,21 +228,34 @@ class Ctx(object):
 
     # ------------------------------------------------------------------ OCaml (extracted models)
     def ocaml_driver(self, name):
-        """Path of an extracted-model driver (ocaml/_build/<name>), rebuilt when stale."""
+        """Path of an extracted-model driver (ocaml/_build/<name>), rebuilt when stale.
+        Stale = the driver source, the glue, its Extract_<mod>.v, or any .v file in the coq/
+        directories named by that file's NEEDS line (plus Base, Lin) is newer than the binary."""
         exe = os.path.join(VERIF, "ocaml", "_build", name)
+        drv = os.path.join(VERIF, "ocaml", name + ".ml")
+        mod = None
+        if os.path.exists(drv):
+            m = re.search(r"\(\* MODELS: (\S+) \*\)", open(drv).read())
+            mod = m.group(1) if m else None
         stale = not os.path.exists(exe)
-        if not stale:
+        if not stale and mod:
             t = os.path.getmtime(exe)
-            src = [os.path.join(VERIF, "ocaml", name + ".ml"), os.path.join(VERIF, "ocaml", "glue.ml.inc")]
-            src += glob.glob(os.path.join(VERIF, "ocaml", "Extract_*.v"))
-            src += [p for p in glob.glob(os.path.join(COQDIR, "**", "*.v"), recursive=True)
-                    if os.sep + "Gen" + os.sep not in p and not os.path.basename(p).startswith("Properties_")]
+            ext = os.path.join(VERIF, "ocaml", "Extract_%s.v" % mod)
+            src = [drv, os.path.join(VERIF, "ocaml", "glue.ml.inc"), ext]
+            dirs = {"Base", "Lin"}
+            if os.path.exists(ext):
+                m = re.search(r"\(\* NEEDS: (.*?) \*\)", open(ext).read())
+                for vo in (m.group(1).split() if m else []):
+                    if "/" in vo:
+                        dirs.add(vo.split("/")[0])
+            for d in dirs:
+                src += glob.glob(os.path.join(COQDIR, d, "*.v"))
             stale = any(os.path.getmtime(p) > t for p in src if os.path.exists(p))
         if stale:
             lock = open(os.path.join(VERIF, "ocaml", ".lock"), "w")
             fcntl.flock(lock, fcntl.LOCK_EX)
             try:
-                sh(["bash", os.path.join(VERIF, "bin", "setup"), "--ocaml-only"], timeout=2400)
+                sh(["bash", os.path.join(VERIF, "bin", "setup"), "--ocaml-only"] + ([mod] if mod else []), timeout=2400)
             finally:
                 fcntl.flock(lock, fcntl.LOCK_UN)
                 lock.close()
